@@ -20,6 +20,12 @@ CHECKS = {
  "C05": dict(cat="exploration", technique="descriptor-driven packing vs oracle on original objects + NaN/Inf poisoning of disabled coefficient storage (bitwise)",
    text="Forms whose integrals use different coefficient subsets, with coefficients removed by derivative/replace and constants created in shuffled order, are compiled; w/c are packed only from descriptor fields and compared with the oracle; every integral with a false enabled flag is re-executed with NaN/Inf/1e300 in that storage and must be bitwise unchanged.",
    note="Trusted: UFL, basix. Converse (enabled => read) not claimed.", ref="3/C05"),
+ "C07": dict(cat="exploration", technique="scripted call histories in guard-paged driver (A0 variation, repeat-after-other-inputs, read-only inputs) + clang ThreadSanitizer 8-thread runs + emitted-text monitor",
+   text="Every kernel kind is driven through the history k(x1,A0=0),k(x1,A0=rand),k(x1,A0=1e6 rand),k(x2),k(x1) with inputs in read-only pages; then 8 threads x 100-200 calls under TSan with bitwise comparison against the sequential result; the emitted text is scanned for non-'+=' updates of A and mutable statics.",
+   note="Held on the histories and interleavings produced; accumulate comparison allows 1024 eps(|A0|+|T|).", ref="3/C07"),
+ "C08": dict(cat="exploration", technique="clang ASan+UBSan and PROT_NONE guard-page executions of the generated C with exact contract-extent buffers for all entity/permutation values",
+   text="Generated C of the C01/C02/C04 corpora (plus sum-factorised and diagonal kernels) is linked with a generic driver; every kernel is called for all valid entity indices and permutation codes with buffers malloc'ed at exactly the extents the UFL form implies (NULL for unused pointers) under ASan+UBSan, and again with buffers flush against guard pages.",
+   note="Extents computed by the harness from the UFL form/ufcx.h. Red-zone/guard-page reach is one page; far overruns inside that are caught, beyond not (E-ast interpreter planned).", ref="3/C08"),
 }
 NA_REASON = "check not built yet in this round (runtime monitoring applies; see DESIGN.md section 3)"
 
